@@ -81,7 +81,7 @@ def main() -> int:
         ok = ok and hit
         shutil.rmtree(d, ignore_errors=True)
     # ---- the other self-contained models: must hold as configured
-    for mod in ("MC_Pool", "Deps", "Faults", "Variants", "Gen_Sites", "LinePipe", "XmlDocs", "MC_ExprRewrite", "WithScope", "WalrusIf", "Prefilter"):   # SqlParam: run above, on its stub data
+    for mod in ("MC_Pool", "Deps", "Faults", "Variants", "Gen_Sites", "LinePipe", "XmlDocs", "MC_ExprRewrite", "WithScope", "WalrusIf", "Prefilter", "ImportUse"):   # SqlParam: run above, on its stub data
         r = tlc.run_tlc(spec, mod, f"{mod}.cfg", timeout=900)
         print(f"tlc  {'ok  ' if not r.violated else 'FAIL'} {mod}: {r.distinct} states, {r.wall_s:.1f}s {[v[1] for v in r.violated][:2]}")
         ok = ok and not r.violated
@@ -146,6 +146,15 @@ def main() -> int:
         print(f"  WalrusIf rule variant {variant}: {'refuted' if hit else 'NOT REFUTED'}")
         ok = ok and hit
         shutil.rmtree(d, ignore_errors=True)
+    # ---- non-vacuity of ImportUse.tla: the export recognition of the pinned commit must be refuted
+    d = scratch("importbug")
+    shutil.copy(spec / "ImportUse.tla", d / "ImportUse.tla")
+    (d / "ImportUse.cfg").write_text((spec / "ImportUse.cfg").read_text().replace('RuleVariant = "tree"', 'RuleVariant = "pinned"'))
+    r = tlc.run_tlc(d, "ImportUse", "ImportUse.cfg", timeout=300, cont=True)
+    hit = any(v[1] == "C02_RemovesOnlyUnusedImports" for v in r.violated)
+    print(f"  ImportUse rule variant pinned: {'refuted' if hit else 'NOT REFUTED'}")
+    ok = ok and hit
+    shutil.rmtree(d, ignore_errors=True)
     # ---- the trace specification rejects a corrupted trace (binding bites)
     from . import tracecheck
 
